@@ -145,11 +145,11 @@ def run(W, p):
                 sched.setdefault(tick, []).extend(rowset)
                 upto_stop += rowset
             tick += cont
-    expected_any = any(sched.values())
+    expected_any = any(mult[i] > 0 for rows_ in sched.values() for i in rows_)  # a table that releases no particle in the window is refused (C20)
     try:
         PR = rel.ParticleReleaser(mods, str(path), **kw)
     except SystemExit:
-        # refusing is right only when nothing is scheduled inside the window
+        # refusing is right only when no particle is scheduled inside the window
         W.prove(not expected_any, "constructs", dict(mc=mc, mult=mult, note="SystemExit although rows are scheduled in the window"))
         return ("exit", tuple(mc))
     W.prove(True, "constructs")
@@ -208,7 +208,13 @@ def subtick(W, p):
     if p["mode"] == "continuous":
         # file times at steps 0 and 2 (both on the model grid and on the frequency grid), a tick every half step
         W.table(path, cols, [[W.dt(START), x0, 1, 5, m0], [W.dt(START + 2 * DT), x1, 2, 5, m1]])
-        PR = rel.ParticleReleaser(dict(time=timer, grid=None, state=S), str(path), continuous=True, release_frequency=DT // 2)
+        try:
+            PR = rel.ParticleReleaser(dict(time=timer, grid=None, state=S), str(path), continuous=True, release_frequency=DT // 2)
+        except SystemExit:
+            # a table that releases no particle at all is refused (C20); any other refusal is wrong
+            W.prove(m0 + m1 == 0, "constructs", dict(mode=p["mode"], mult=[m0, m1], note="SystemExit although particles are scheduled in the window"))
+            return (p["mode"], m0, m1, "refused")
+        W.prove(m0 + m1 > 0, "constructs", dict(mode=p["mode"], mult=[m0, m1], note="a table releasing nothing was accepted"))
         expect = {0: [(x0, m0), (x0, m0)], 1: [(x0, m0), (x0, m0)], 2: [(x1, m1), (x1, m1)]}
     else:
         # two rows inside step 1 (one on the step, one 250 s later), one row at step 2
